@@ -1,8 +1,36 @@
 package main
 
-import "fmt"
+import (
+	"fmt"
+	"os"
+	"os/exec"
+	"time"
 
+	"zx/zi"
+)
+
+// selftest: solver availability and error handling, and a differential check of the term
+// simplifier against the solver (200 random trees; see zi.SelfTest).
 func selftest() int {
-	fmt.Println("selftest: ok (placeholder)")
+	if _, err := exec.LookPath("cvc5"); err != nil {
+		fmt.Println("selftest: cvc5 not found")
+		return 1
+	}
+	t0 := time.Now()
+	n, seed := 200, int64(1)
+	if v := os.Getenv("ZX_SELFTEST_N"); v != "" {
+		fmt.Sscan(v, &n)
+	}
+	if v := os.Getenv("ZX_SELFTEST_SEED"); v != "" {
+		fmt.Sscan(v, &seed)
+	}
+	q, unk, fails := zi.SelfTest("cvc5", n, seed)
+	for _, f := range fails {
+		fmt.Println("selftest FAILURE:", f)
+	}
+	if len(fails) > 0 {
+		return 1
+	}
+	fmt.Printf("selftest: ok (%d solver queries; simplified term = raw SMT-LIB term on %d of %d random trees, %d timed out, none differs; %.1fs)\n", q, n-unk, n, unk, time.Since(t0).Seconds())
 	return 0
 }
